@@ -59,11 +59,13 @@ type Env struct {
 	ModAddr sdk.AccAddress
 	Msg     types.MsgServer
 	// accounts tracked in the bank dump, id -> address
-	acctAddr   map[int]sdk.AccAddress
-	acctIDs    []int
-	lastDetail string
-	lastSnap   *State
-	Mon        MonState
+	acctAddr     map[int]sdk.AccAddress
+	acctIDs      []int
+	lastDetail   string
+	replayNote   string
+	reimportNote string
+	lastSnap     *State
+	Mon          MonState
 }
 
 func denomID(d string) int {
